@@ -38,6 +38,8 @@ var targets = []target{
 	{"internal/service/dataset/compact.go", "", "flushDeletes", []string{"Update"}, false},
 	// the rolling id transaction shared by all writers: schedule points around its commit (C05/C13)
 	{"internal/server/store.go", "Store", "commitIDTxn", []string{"Commit"}, true},
+	// the namespace table: schedule points in front of every lock acquisition of the function that adds a prefix (C13)
+	{"internal/server/store.go", "NamespaceManager", "AssertPrefixMappingForExpansion", []string{"lock.Lock", "lock.RLock"}, true},
 }
 
 var fset = token.NewFileSet()
